@@ -129,6 +129,30 @@ def gen_cases(ck):
                 m = [["n", 0]] + sg.random_merge(rng, [arr, sev])
                 add(sg.with_polls(m, (1 << len(m)) - 1), [0], "answer_kind_vs_more_flag", {"more": more, "items": n_items})
                 add(sg.with_polls(m, 0), [0], "answer_kind_vs_more_flag", {"more": more, "items": n_items})
+    # (f) flag combinations: oneway / more / upgrade each absent, true or written-out false (27 combinations),
+    #     the flag members in any position of the object, for calls the service answers Single, Error and
+    #     Multi.  Whether a call is oneway is read off the frame by the harness independently of zlink's
+    #     call deserializer; a oneway call gets nothing, whatever else it carries, and the next call's reply
+    #     must not shift
+    for ki, kind in enumerate(("Echo", "Fail", "Sub", "Say")):
+        for fi, (o, m, u) in enumerate(sg.FLAG_COMBOS):
+            tags = sg.Tags()
+            order = sg.MEMBER_ORDERS[(fi + ki) % len(sg.MEMBER_ORDERS)]
+            fr = [sg.call(kind, 0, tags.next(), v=7, oneway=o, more=m, upgrade=u, order=order, s="x\u0000y"),
+                  sg.call("Echo", 0, tags.next(), v=8),
+                  sg.call(kind, 0, tags.next(), v=9, oneway=o, more=m, upgrade=u, shuffle=rng, s="z"),
+                  sg.call("Count", 0, tags.next())]
+            sev = [["si", 0, 5, 1], ["se", 0], ["si", 0, 6, 2], ["se", 0]] if kind == "Sub" else []
+            add([["n", 0], ["a", 0, sg.wire(fr).hex()], ["p"]] + [x for e in sev for x in (e, ["p"])], [0],
+                "flag_combinations", {"kind": kind, "oneway": o, "more": m, "upgrade": u, "order": order})
+            if quick and fi % 3:
+                continue
+            other = [sg.call("Echo", 1, tags.next(), v=1, oneway=o, more=m, upgrade=u, shuffle=rng),
+                     sg.call("Count", 1, tags.next())]
+            ev = [["n", 0], ["n", 1], ["a", 0, sg.wire(fr[:1]).hex()], ["a", 1, sg.wire(other).hex()],
+                  ["a", 0, sg.wire(fr[1:]).hex()]] + sev
+            add(sg.with_polls(ev, rng.getrandbits(len(ev))), [0, 1], "flag_combinations",
+                {"kind": kind, "oneway": o, "more": m, "upgrade": u})
     # (w) one connection's writes fail (at every position) while the others have calls pending / pipelined:
     #     the others are answered as if nothing had happened
     for k in range(0, 4):
@@ -163,8 +187,10 @@ def gen_cases(ck):
                     shared = True
                 if kind == "Sub":
                     nsub += 1
-                frames.append(sg.call(kind, cid, tags.next(), v=rng.randrange(0, 100000), oneway=ow,
-                                      more=rng.choice(sg.MORE), shuffle=rng if rng.random() < 0.2 else None,
+                frames.append(sg.call(kind, cid, tags.next(), v=rng.randrange(0, 100000),
+                                      oneway=ow or rng.choice([False, False, "false"]),
+                                      more=rng.choice(sg.MORE), upgrade=rng.choice([False, False, True, "false"]),
+                                      shuffle=rng if rng.random() < 0.3 else None,
                                       s=sg.nasty(rng), raw_utf8=rng.random() < 0.3))
             stream = sg.wire(frames)
             ncut = rng.choice([0, 0, 1, 2, 2, 3, 5])
